@@ -33,6 +33,10 @@ def add_sites(ck: Checker):
 
 
 def check(ck: Checker) -> None:
+    from . import round4 as _r4
+
+    _r4.post_copy_covers_all(ck, "C01.protect")
+    _r4.hashinfo_identity(ck, "C01.pair")
     ck.decided = [
         "C01.pair: at every store insertion (8 call sites) the path and the oid are one row: same object (.path/.oid), columns of one zip(*rows) whose rows pair an object's path with its oid (or an index entry's storage path with its recorded hash), keys/values of one dict keyed by path with value hashes[path], the digest of the very stream uploaded to that path, or a migration row (path, hash-of-path)",
         "C01.keyfaithful: _hash returns its own path with hash_file(path); _get_hashes files state hits and fresh hashes under the path they belong to; hash_file/_hash_file/file_md5 hash the path they were given",
